@@ -20,6 +20,7 @@ type replayFile struct {
 	Property   string            `json:"property"`
 	Unit       string            `json:"unit"`
 	Obligation string            `json:"obligation"`
+	Pos        string            `json:"pos"`
 	Model      map[string]string `json:"model"`
 }
 
